@@ -111,3 +111,56 @@ def static_vs_runtime(model, payload):
     if r.get("reproduced"):
         return r
     return _spelling_sweep(True) or _spelling_sweep(False) or r
+
+
+def _literal_expression_sweep():
+    """an argument expression seen in source either has no static hash (the key then falls back to the call-site context)
+    or is hashed exactly like the value it denotes at run time"""
+    from dds.fun_args import get_arg_ctx, get_arg_ctx_ast
+
+    def f(a, b=3):
+        return a
+
+    exprs = ["1", "0", "-1", "+1", "~1", "not 1", "not 0", "-1.5", "+1.5", "- 0", "-True", "~True", "not True", "not None", "--1", "-(-1)", "~~1",
+             "'a'", "''", "None", "True", "False", "1.0", "b'x'", "(1, 2)", "[1]", "{'k': 1}", "1 + 1", "2 ** 3", "-x", "x", "1 if True else 2"]
+    for src in exprs:
+        node = ast.parse(src, mode="eval").body
+        try:
+            value = eval(src, {"x": 7})
+        except Exception:
+            continue
+        for how in ("positional", "keyword"):
+            try:
+                if how == "positional":
+                    st = dict(get_arg_ctx_ast(f, [node], OrderedDict()))["a"]
+                else:
+                    st = dict(get_arg_ctx_ast(f, [], OrderedDict([("a", node)])))["a"]
+            except BaseException as e:
+                # a value of an unsupported type is refused with the same coded error at run time: consistent
+                try:
+                    get_arg_ctx(f, (value,), {})
+                    same = False
+                except BaseException as e2:
+                    same = type(e2) is type(e) and getattr(e2, "error_code", None) == getattr(e, "error_code", None)
+                if same:
+                    continue
+                return {"reproduced": True, "detail": "the %s literal argument `%s` makes get_arg_ctx_ast raise %s: %s" % (how, src, type(e).__name__, str(e)[:120]), "inputs": {"expression": src, "how": how}}
+            if st is None:
+                continue
+            try:
+                rt = dict(get_arg_ctx(f, (value,), {}).named_args)["a"]
+            except BaseException:
+                rt = "<unhashable at run time>"
+            if st != rt:
+                return {"reproduced": True, "detail": "the %s argument `%s` seen in source is hashed as %s..., the value it denotes (%r) hashes as %s... at run time" % (how, src, str(st)[:8], value, str(rt)[:8]), "inputs": {"expression": src, "how": how, "denotes": repr(value)}}
+    return None
+
+
+_static_vs_runtime1 = static_vs_runtime
+
+
+def static_vs_runtime(model, payload):
+    r = _static_vs_runtime1(model, payload)
+    if r.get("reproduced"):
+        return r
+    return _literal_expression_sweep() or r
